@@ -182,10 +182,10 @@ def lifetime_rules(rep, hirx, wd, st, tier):
     # implied bounds: every signature over 2 (thorough 3) lifetimes with every declared bound set
     sigs = list(S.enumerate_sigs(("a", "b"), ["none", "&'x self on Op", "self: SB<'x>"],
                                  ["&'x Op", "&'x OpL<'y>", "S2b<'x,'y>", "S2<'x,'y>", "SB<'x>", "&'x [u8]"], 1,
-                                 [f for f in S.RET_FORMS if f.name in ("&'r Op", "&'r OpL<'s>", "Box<OpL<'r>>", "S2<'r,'s>", "&'r [u8]")]))
+                                 [f for f in S.RET_FORMS if f.name in ("&'r Op", "&'r OpL<'s>", "Box<OpL<'r>>", "S2<'r,'s>", "S2b<'r,'s>", "&'r [u8]")]))
     if tier == "thorough":
         sigs += list(S.enumerate_sigs(("a", "b", "c"), ["none", "&'x self on Op"], ["&'x OpL<'y>", "S2b<'x,'y>", "&'x Op"], 1,
-                                      [f for f in S.RET_FORMS if f.name in ("&'r Op", "&'r OpL<'s>", "Box<OpL<'r>>")]))
+                                      [f for f in S.RET_FORMS if f.name in ("&'r Op", "&'r OpL<'s>", "Box<OpL<'r>>", "S2b<'r,'s>")]))
     items = [{"id": i, "impl": s.impl_header(), "method": s.render_method("m")} for i, s in enumerate(sigs)]
     res = _hirx(hirx, wd, "implied", items, prelude=S.PRELUDE)
     for s, r in zip(sigs, res):
